@@ -518,15 +518,14 @@ def _k3(ctx, rep, fns, av, k_counts):
                 if isinstance(t, tuple):
                     terms.append((t, path, node))
         for t, path, node in terms:
-            for s in subterms(t):
-                if s[0] != "sub":
-                    continue
+            for s, extra in _subs_with_context(t, []):
                 idx = s[2]
                 if isinstance(idx, tuple) and idx and idx[0] == "slice":
                     continue  # slices never raise
                 base = strip_mut(s[1])
                 key = (f.qualname, show(s))
-                ok, why = _k3_discharge(ctx, f, s, base, idx, path, av)
+                atoms = path.atoms() + _expand_atoms(extra)
+                ok, why = _k3_discharge(ctx, f, s, base, idx, atoms, av)
                 if key in seen and ok:
                     continue
                 seen.add(key)
@@ -541,6 +540,54 @@ def _k3(ctx, rep, fns, av, k_counts):
                 k_counts["K3"] += 1
                 rep.fail("C14.K3-unpack", "%s:%s" % (f.name, ast.unparse(n.value)[:40]), "unpacking the result of %s into %d names in %s requires an exact field count that the classifier does not guarantee (e.g. an extra '$' in a hash)" % (ast.unparse(n.value)[:40], len(n.targets[0].elts), f.qualname), W(f, n),
                          witness="$1$mERr$hx5rVt7rPNoS4wqbXKX7m0$", key="C14.K3-unpack|%s" % f.name)
+
+
+def _expand_atoms(extra):
+    """Normalise (term, polarity) assumptions the way Path.atoms() does."""
+    from .flow import Path
+    p = Path()
+    p.conds = [(t, pol, None) for t, pol in extra]
+    return p.atoms()
+
+
+def _subs_with_context(t, assumed):
+    """Yield (subscript term, assumptions) where assumptions are the (term, truth) facts under which the
+    subscript is evaluated inside short-circuit operators (a or b: b only if a is false; a and b: b only if a; x if c else y)."""
+    if not isinstance(t, tuple) or not t:
+        return
+    if not isinstance(t[0], str):
+        for x in t:
+            for y in _subs_with_context(x, assumed):
+                yield y
+        return
+    tag = t[0]
+    if tag in ("const", "param", "global", "builtin", "carried", "loopout", "bound", "unbound", "exc", "unknown", "inloop", "loopbreak", "except"):
+        return
+    if tag == "loopvar":
+        for y in _subs_with_context(t[2], assumed):
+            yield y
+        return
+    if tag == "boolop":
+        acc = list(assumed)
+        for item in t[2]:
+            for y in _subs_with_context(item, acc):
+                yield y
+            acc = acc + [(item, t[1] == "and")]
+        return
+    if tag == "ifexp":
+        for y in _subs_with_context(t[1], assumed):
+            yield y
+        for y in _subs_with_context(t[2], assumed + [(t[1], True)]):
+            yield y
+        for y in _subs_with_context(t[3], assumed + [(t[1], False)]):
+            yield y
+        return
+    if tag == "sub":
+        yield t, assumed
+    for x in t[1:]:
+        if isinstance(x, tuple):
+            for y in _subs_with_context(x, assumed):
+                yield y
 
 
 def _returns_tuple_of(ctx, callee, n):
@@ -558,7 +605,7 @@ def _returns_tuple_of(ctx, callee, n):
     return True
 
 
-def _k3_discharge(ctx, f, s, base, idx, path, av):
+def _k3_discharge(ctx, f, s, base, idx, atoms, av):
     p, G = ctx.p, ctx.G
     # constant index into a fixed-arity tuple returned by a package function
     if M.is_call(base) and idx[0] == "const" and isinstance(idx[1], int):
@@ -569,7 +616,7 @@ def _k3_discharge(ctx, f, s, base, idx, path, av):
         if nm == "hexdigest":
             return True, "hexdigest() is 32 characters"
         if nm == "split" and idx[1] == 2 and base[1][0] == "attr" and base[1][1] == av.V and f is av.fn:
-            md5 = path.truth(("compare", ("==",), (av.FMT, ("attr", ("global", f.module.name, "_sensitive_item_formats"), "md5"))))
+            md5 = any(pol and t == ("compare", ("==",), (av.FMT, ("attr", ("global", f.module.name, "_sensitive_item_formats"), "md5"))) for t, pol in atoms) or None
             return (md5 is True), "value classified md5 has >= 3 '$' fields (classifier language fact C14.K3.md5-has-salt-field)" if md5 is True else "split('$')[2] not dominated by the md5 classification"
     if M.is_call(base) and M.callee_name(base) == "hexdigest" and (idx in M.MINUS1 or idx[0] == "const"):
         return True, "hexdigest() is 32 characters"
@@ -589,7 +636,7 @@ def _k3_discharge(ctx, f, s, base, idx, path, av):
     if idx[0] == "binop" and idx[1] == "%" and M.builtin_call(idx[3], "len", 1) and strip_mut(idx[3][2][0]) == base:
         return True, "index reduced modulo len of the same sequence"
     # dict read dominated by a membership test
-    for t, pol in path.atoms():
+    for t, pol in atoms:
         if t[0] == "compare" and t[1] == ("in",) and t[2][0] == idx and strip_mut(t[2][1]) == base and pol:
             return True, "dominated by `key in mapping`"
     # last character of the bit string / memo floor
@@ -605,9 +652,9 @@ def _k3_discharge(ctx, f, s, base, idx, path, av):
         return True, "index enumerates the same sequence"
     # juniper tables
     if f.module.name == JS and base[0] == "global" and base[2] in ("ALPHA_NUM", "EXTRA", "NUM_ALPHA", "ENCODING"):
-        return _k3_juniper(ctx, f, base, idx, path)
+        return _k3_juniper(ctx, f, base, idx, atoms)
     if f.module.name == JS and base == ("param", "salt") and idx == ("const", 0):
-        for t, pol in path.atoms():
+        for t, pol in atoms:
             if t == ("param", "salt") and pol:
                 return True, "dominated by a non-empty test"
         return False, "salt[0] on a caller-supplied string that may be empty (netconan passes its own salt; '' raises IndexError)"
@@ -638,7 +685,7 @@ def _const_call(ctx, f, t):
     return None
 
 
-def _k3_juniper(ctx, f, base, idx, path):
+def _k3_juniper(ctx, f, base, idx, atoms):
     """Table reads in the codec: the key must be in the alphabet."""
     name = base[2]
     if f.name in ("juniper_decrypt", "_gap", "_gap_decode", "_nibble"):
@@ -647,7 +694,7 @@ def _k3_juniper(ctx, f, base, idx, path):
         return True, "prev is the salt character or a character emitted from NUM_ALPHA"
     if f.name == "juniper_nonrandom_encrypt":
         # EXTRA[salt] / ALPHA_NUM[salt]: need salt in the alphabet
-        for t, pol in path.atoms():
+        for t, pol in atoms:
             if t[0] == "compare" and t[1] in (("in",), ("not in",)) and strip_mut(t[2][1]) in (("global", base[1], "EXTRA"), ("global", base[1], "ALPHA_NUM")):
                 member = pol if t[1] == ("in",) else not pol
                 if member:
@@ -976,7 +1023,7 @@ def _codec_structure(ctx, rep, NUM_ALPHA, EXTRA, ENCODING, fixedc):
         short = sorted(c for c, v in EXTRA.items() if 1 + v < 4)
         rep.ob("C18.output-valid-empty", "encoder/VALID", not short,
                "for the EMPTY plaintext the encoder emits only salt + fillers (1 + EXTRA[salt] characters); for %d of the 65 salt characters that is fewer than the 4 characters VALID demands, so decrypt(encrypt('', s)) is refused" % len(short), JS,
-               witness={"plaintext": "", "salt": short[0] if short else None}, key="C18.output-valid-empty|encoder")
+               witness={"plaintext": "", "salt": short[0] if short else None}, key="C18.output-valid-empty|salts-affected:%d" % len(short))
     # only ValueError is raised in the module
     for f in p.all_functions():
         if f.module.name != JS:
